@@ -39,8 +39,12 @@ EitherTampers == {"appended"}
 Abs(x) == IF x < 0 THEN 0 - x ELSE x
 
 KeyOk(r)  == r.signed /\ r.keyName \in Configured /\ r.macKey = r.keyName /\ r.alg = "cfg" /\ r.macLen = "full"
-TimeIn(r, p)  == Abs(r.dt) < p.fudge          \* strictly inside the window
-TimeEdge(r, p) == Abs(r.dt) = p.fudge         \* "within fudge": < or <= left open by the statement
+\* "whose time is within fudge of the server clock": the fudge is the one the REQUEST carries under its
+\* MAC (RFC 8945 5.2.3), not a value of the server's configuration; rfudge is absent where the sender
+\* used the configured value
+RF(r, p) == IF "rfudge" \in DOMAIN r THEN r.rfudge ELSE p.fudge
+TimeIn(r, p)  == Abs(r.dt) < RF(r, p)          \* strictly inside the window
+TimeEdge(r, p) == Abs(r.dt) = RF(r, p)         \* "within fudge": < or <= left open by the statement
 
 \* the request is a valid, timely, untampered TSIG-signed request
 Authentic(r, p) == KeyOk(r) /\ TimeIn(r, p) /\ r.tamper \in FreeTampers
